@@ -9,6 +9,7 @@ import (
 
 // H_C01_frame: BodyLength / CheckSum / framing order on the serialized form of a populated shape.
 func H_C01_frame() {
+	zz.Class(shapeClass())
 	s := template(zz.Param(0))
 	m := buildMessage(s)
 	p := ctlFromParams(1)
@@ -93,9 +94,11 @@ func H_C01_lowsum() {
 
 // H_C17_fields: the wire form is exactly frame(expected populated fields in template order).
 func H_C17_fields() {
+	zz.Class(shapeClass())
 	s := template(zz.Param(0))
 	m := buildMessage(s)
 	p := ctlFromParams(1)
+	p.strict = true
 	exp := p.populateMessage(s, m)
 	out, err := m.ToBytes()
 	zz.Assert(err == nil, "C17: ToBytes returned an error")
@@ -108,9 +111,11 @@ func H_C17_fields() {
 
 // H_C17_unset: a field populated and then un-populated with Set(nil) is absent.
 func H_C17_unset() {
+	zz.Class(shapeClass())
 	s := template(zz.Param(0))
 	m := buildMessage(s)
 	p := ctlFromParams(1)
+	p.strict = true
 	exp := p.populateMessage(s, m)
 	// un-populate the first body leaf if there is one
 	if len(s.body) > 0 && s.body[0].n == nLeaf && s.body[0].k != kRaw {
